@@ -52,4 +52,9 @@ def states (w : World σ) : Nat → Nat → σ → List σ
   | 0, _, s => [s]
   | r + 1, i, s => s :: states w r (i + 1) (w.evalE i s).2
 
+/-- the state after the components `i …` have been evaluated one after the other, each in the state its predecessor left -/
+def afterAll (w : World σ) : Nat → Nat → σ → σ
+  | 0, _, s => s
+  | r + 1, i, s => afterAll w r (i + 1) (w.evalE i s).2
+
 end Model.MatchTop
